@@ -5,6 +5,9 @@
   C01_relay_rejoin_amnesia.json          NOT TLC-derived: 900 s of TLC search (C01b_state on TeeRejoinRelay) found no behaviour; the
                                           schedule was found by seeded random search on an implementation with the bug
                                           (seeded change C01_2) and is kept as a regression schedule.
+  C07_relay_rejoin_stale_floor.json, C07_worker_close_resets_floor.json
+                                          likewise found by seeded random search on implementations with the bug (seeded changes
+                                          C07_3, C07_4).
 """
 import json, os, sys
 sys.path.insert(0, os.path.dirname(os.path.dirname(os.path.abspath(__file__))))
